@@ -62,7 +62,8 @@ def gen_case(rng, opts=None):
                     fresh = prev is None or k not in prev.get(t["name"], {})
                     if mode == "hidden_only":
                         if cls_of(t, a) in ("LOC", "CON") and rng.random() < 0.7:
-                            row[a] = tok(cls_of(t, a))
+                            # the hidden value changes, or disappears (NULL in the source), or comes back
+                            row[a] = tok(cls_of(t, a)) if rng.random() < 0.7 else None
                     elif fresh or rng.random() < 0.4:
                         row[a] = tok(cls_of(t, a))
                     else:
@@ -246,6 +247,19 @@ def analyse(case, res):
                             viol.append(("schema-reveals-hidden-attribute", "init-start", f"{t['name']}.{a}"))
         else:
             base_tokens |= toks
+        # no event names a local / cache-only attribute (as a key of its attributes or of the
+        # added / modified / removed parts of a 'modified')
+        if ev["eventtype"] in ("added", "modified"):
+            t = next((t for t in cfg["types"] if t["name"] == ev.get("objtype")), None)
+            if t is not None:
+                named = set()
+                if ev["eventtype"] == "added":
+                    named = set(ev["objattrs"])
+                else:
+                    for part in ("added", "modified", "removed"):
+                        named |= set(ev["objattrs"].get(part, {}))
+                for a in named & set(t["local"] + t["cacheonly"]):
+                    viol.append(("hidden-attribute-named-in-event", f"{ev['evcategory']} {ev['eventtype']} {t['name']}", a))
     for t in init_tokens:
         if t.startswith("SEC"):
             viol.append(("secret-in-initsync", "bus", t))
